@@ -1,8 +1,8 @@
 import MakoModel.Conc.LemmasInv
 /-!
-The freshness invariant behind `returns_fresh_partial` (filesystem_checks on): a template returned by any path
-other than the second-chance read was either compiled during the call, or passed the `_check` comparison against
-the file as it was no earlier than the start of the call.
+The freshness invariant behind `returns_fresh` (filesystem_checks on): every template `get_template` returns – a
+second-chance hit included, which goes through `_check` after the mutex is released – was either compiled during the
+call, or passed the `_check` comparison against the file as it was no earlier than the start of the call.
 -/
 namespace MakoModel.Conc
 
